@@ -242,6 +242,10 @@ func (d *deepCopier) deepCopyMap(in, out reflect.Value) {
 	}
 	if mv, ok := d.mapMap[in.Pointer()]; ok && out.CanSet() {
 		// We've seen this map before, let's take advantage of it.
+		if mv.Type() != out.Type() {
+			// the same map, referenced through another defined map type
+			mv = mv.Convert(out.Type())
+		}
 		out.Set(mv)
 		return
 	}
